@@ -13,6 +13,7 @@ arr0(u8) arr3(u16) arr2(opt(u8)) arr2(string) arr25(u8)
 bmap(u8,string) hmap(u16,bool) bmap(string,seq(u8))
 tup(u8) tup(u8,i8) tup(string,opt(u8),bool) tup(u8,u8,u8,u8) tup(u64,i64,f32,f64,char) tup(u8,u8,u8,u8,u8,u8)
 tup(u8,u8,u8,u8,u8,u8,u8) tup(u8,u8,u8,u8,u8,u8,u8,u8) tup16
+tup(u8,u8,u8,u8,u8,u8,u8,u8,u8) tup(u8,u8,u8,u8,u8,u8,u8,u8,u8,u8) tup(u8,u8,u8,u8,u8,u8,u8,u8,u8,u8,u8) tup(u8,u8,u8,u8,u8,u8,u8,u8,u8,u8,u8,u8) tup(u8,u8,u8,u8,u8,u8,u8,u8,u8,u8,u8,u8,u8) tup(u8,u8,u8,u8,u8,u8,u8,u8,u8,u8,u8,u8,u8,u8) tup(u8,u8,u8,u8,u8,u8,u8,u8,u8,u8,u8,u8,u8,u8,u8)
 range(u8) rangeincl(i16) rangefrom(u32) rangeto(string) rangetoincl(u64) bound(i32) bound(opt(u8))
 duration systemtime ipv4 ipv6 ip sockv4 sockv6 sock
 box(u32) wrapping(u8) cell(u16) refcell(seq(u8))
